@@ -916,51 +916,69 @@ def r145(ctx, R):
             and len(c.ops) == 2]
     okf = False
     ps = fm.params
-    if len(cmpn) == 1 and len(ps) >= 3 and all(
-            isinstance(o, ast.LtE) for o in cmpn[0].ops) and sorted(
-                roles.values()) == ['func', 'max', 'min']:
-        c0 = cmpn[0]
-        iff = getattr(c0, '_parent', None)
-        lp = getattr(iff, '_parent', None)
-        if isinstance(iff, ast.If) and iff.test is c0 and isinstance(
-                lp, ast.For):
-            def elem(e):
-                """Index of the entry element an expression reads."""
-                if isinstance(lp.target, ast.Tuple) and isinstance(
-                        e, ast.Name):
-                    ns = [src(x) for x in lp.target.elts]
-                    return ns.index(e.id) if e.id in ns else None
-                if isinstance(lp.target, ast.Name) and isinstance(
-                        e, ast.Attribute) and isinstance(
-                            e.value, ast.Name) and e.value.id == \
-                        lp.target.id:
-                    for fl in records.values():
-                        if e.attr in fl:
-                            return fl.index(e.attr)
-                if isinstance(lp.target, ast.Name) and isinstance(
-                        e, ast.Subscript) and isinstance(
-                            e.value, ast.Name) and e.value.id == \
-                        lp.target.id and isinstance(
-                            e.slice, ast.Constant):
-                    return e.slice.value
-                return None
-            okf = elem(c0.left) == inv['min'] and src(
-                c0.comparators[0]) == ps[1] and elem(
-                    c0.comparators[1]) == inv['max']
-            # the matching entry's function is what is returned
-            okf = okf and len(iff.body) == 1 and isinstance(
-                iff.body[0], ast.Return) and elem(
-                    iff.body[0].value) == inv['func'] and not iff.orelse
-            # the list walked is this name's registration list
-            deps = C.FlowDeps(fm)
-            okf = okf and deps.reaches(
+    loops = [x for x in own_nodes(fm.node) if isinstance(x, ast.For)]
+    if len(loops) == 1 and len(ps) >= 3 and sorted(
+            roles.values()) == ['func', 'max', 'min']:
+        lp = loops[0]
+
+        def elem(e):
+            """Index of the entry element an expression reads."""
+            if isinstance(lp.target, ast.Tuple) and isinstance(
+                    e, ast.Name):
+                ns = [src(x) for x in lp.target.elts]
+                return ns.index(e.id) if e.id in ns else None
+            if isinstance(lp.target, ast.Name) and isinstance(
+                    e, ast.Attribute) and isinstance(
+                        e.value, ast.Name) and e.value.id == \
+                    lp.target.id:
+                for fl in records.values():
+                    if e.attr in fl:
+                        return fl.index(e.attr)
+            if isinstance(lp.target, ast.Name) and isinstance(
+                    e, ast.Subscript) and isinstance(
+                        e.value, ast.Name) and e.value.id == \
+                    lp.target.id and isinstance(
+                        e.slice, ast.Constant):
+                return e.slice.value
+            return None
+
+        def in_range(a, pol):
+            return pol and isinstance(a, ast.Compare) and len(
+                a.ops) == 2 and all(isinstance(o, ast.LtE)
+                                    for o in a.ops) and elem(
+                a.left) == inv['min'] and src(
+                    a.comparators[0]) == ps[1] and elem(
+                        a.comparators[1]) == inv['max']
+        # per path: what is returned is the function of an entry the path
+        # found to enclose the version; a path that raises the declared
+        # status has not found one (early return from the loop, or a found
+        # entry carried out of it, are the same paths)
+        paths = pathval.paths_of(fm)
+        rets = [p for p in paths if p.end == 'return']
+        raises = [p for p in paths if p.end == 'raise']
+        okf = bool(rets) and bool(raises)
+        for p in rets:
+            ret = p.stmts[-1]
+            v = p.value_at(ret, ret.value) if ret.value is not None else None
+            if not (v is not None and elem(v) == inv['func']
+                    and pathval.holds(p, in_range)):
+                okf = False
+                why5.append('a path returns %s without the range test' %
+                            (src(v) if v is not None else None))
+        for p in raises:
+            r_ = p.stmts[-1]
+            if not (isinstance(r_, ast.Raise) and r_.exc is not None and src(
+                    r_.exc).replace('webob.exc.', '') ==
+                    'status_map[%s]' % ps[2]) or pathval.holds(p, in_range):
+                okf = False
+                why5.append('a raising path: %s' % src(r_)[:50])
+        # the list walked is this name's registration list
+        deps = C.FlowDeps(fm)
+        okf = okf and deps.reaches(
+            lp.iter, lambda x: isinstance(x, ast.Name)
+            and x.id == 'VERSIONED_METHODS') and deps.reaches(
                 lp.iter, lambda x: isinstance(x, ast.Name)
-                and x.id == 'VERSIONED_METHODS') and deps.reaches(
-                    lp.iter, lambda x: isinstance(x, ast.Name)
-                    and x.id == ps[0])
-    rs = [r for r in own_nodes(fm.node) if isinstance(r, ast.Raise)]
-    okf = okf and len(rs) == 1 and len(ps) >= 3 and src(rs[0].exc).replace(
-        'webob.exc.', '') == 'status_map[%s]' % ps[2]
+                and x.id == ps[0])
     R.ob('R14.5', '_find_method', okf,
          'a versioned handler runs iff min <= version <= max, otherwise the '
          'declared status is raised', [src(c) for c in cmpn] + [
